@@ -23,7 +23,7 @@ type rcReq struct {
 	Kind  string   // "p0" "p1" "p2" "sub" "unsub"
 	Tag   string   // payload (publish)
 	Subs  []string // filters (sub: "filter:qos")
-	Phase byte     // 'B' before Connect, 'S' connected after settling, 'N' connected immediately, 'O' when the current link is down, 'H' during the next reconnect handshake (CONNECT written, CONNACK not yet consumed), 'T' 15 s later, 'U' 11 s later
+	Phase byte     // 'B' before Connect, 'S' connected after settling, 'N' connected immediately, 'O' when the current link is down, 'H' during the next reconnect handshake (CONNECT written, CONNACK not yet consumed), 'C' (Manual only) between the application's SetClient and Connect of the next connection, 'T' 15 s later, 'U' 11 s later
 	Dup   bool     // publish: the caller's Message already has Dup=true (a forwarded / reused message)
 	ID    uint16   // publish: identifier the caller put on the message (0: let the client choose)
 }
@@ -86,6 +86,7 @@ type rcRun struct {
 	broker     *env.Broker
 	rc         mqtt.ReconnectClient
 	retry      *mqtt.RetryClient
+	swapGen    int // Manual: number of redials whose SetClient has been called
 	submitted  []bool
 	accepted   []bool
 	subErr     []error
@@ -319,6 +320,10 @@ func rcExecuteInto(cfg *rcCfg, out **rcRun) *rcRun {
 				vrt.Sleep(int64(15 * time.Second))
 			case 'U':
 				vrt.Sleep(int64(11 * time.Second)) // one second after the first keep-alive tick of a 10 s interval
+			case 'C':
+				k := r.swapGen
+				vrt.Observe(uint64(k))
+				vrt.Await("between SetClient and Connect of a redial", func() bool { return r.swapGen > k })
 			case 'H':
 				k := len(r.net.Conns)
 				vrt.Observe(uint64(k))
@@ -370,6 +375,11 @@ func (r *rcRun) manualLoop(dialer mqtt.Dialer, copts []mqtt.ConnectOption, base,
 			cli, err := dialer.DialContext(bg)
 			if err == nil {
 				r.retry.SetClient(bg, cli)
+				if initialized {
+					// the application's other goroutines may run here (phase 'C')
+					r.swapGen++
+					vrt.Settle()
+				}
 				var sp bool
 				sp, err = r.retry.Connect(bg, "cid", copts...)
 				if err == nil {
@@ -533,7 +543,7 @@ func rcName(reqs []rcReq) string {
 // request of the workload (the quick tiers restrict themselves to such workloads).
 func rcLateOnlyLast(reqs []rcReq) bool {
 	for i, q := range reqs {
-		if (q.Phase == 'O' || q.Phase == 'H') && i != len(reqs)-1 {
+		if (q.Phase == 'O' || q.Phase == 'H' || q.Phase == 'C') && i != len(reqs)-1 {
 			return false
 		}
 	}
